@@ -299,6 +299,19 @@ func hashesOf(txns []coin.Transaction) []string {
 
 func (w *world) submit(t *rapid.T, n *node, sb coin.SignedBlock, what string) bool {
 	wantOK, why := n.m.CheckBlock(&sb)
+	if wantOK && n.publisher {
+		// an arbitrating node sorts the transactions by fee while checking the block and leaves out those whose fee
+		// it cannot compute (input hours that overflow - the legacy exception of the hard rules counts them as 0);
+		// it appends the block only if nothing had to be dropped or moved
+		for i := range sb.Body.Transactions {
+			if _, ok := n.m.FeeOf(&sb.Body.Transactions[i]); !ok {
+				wantOK, why = false, "fee not computable (arbitrating node)"
+			}
+		}
+		if wantOK && !canonicalOrder(n.m, sb.Body.Transactions) {
+			wantOK, why = false, "transactions not in fee order (arbitrating node)"
+		}
+	}
 	var err error
 	if p := call(func() { err = n.v.ExecuteSignedBlock(sb) }); p != nil {
 		t.Fatalf("%s: ExecuteSignedBlock panicked on %s: %v\n history:\n  %s", n.name, what, p, w.history())
@@ -324,6 +337,23 @@ func (w *world) submit(t *rapid.T, n *node, sb coin.SignedBlock, what string) bo
 	}
 	w.checkNode(t, n, "block "+what)
 	return wantOK
+}
+
+// canonicalOrder: fee per kB descending, ties by ascending hash (the order the publisher itself uses)
+func canonicalOrder(m *ref.Model, txns []coin.Transaction) bool {
+	for i := 1; i < len(txns); i++ {
+		fa, fb := feePerKB(m, &txns[i-1]), feePerKB(m, &txns[i])
+		if fa < fb {
+			return false
+		}
+		if fa == fb {
+			ha, hb := txref.TxnHash(&txns[i-1]), txref.TxnHash(&txns[i])
+			if string(ha[:]) > string(hb[:]) {
+				return false
+			}
+		}
+	}
+	return true
 }
 
 func (w *world) actDeliver(t *rapid.T) {
@@ -389,19 +419,15 @@ func (w *world) actCraft(t *rapid.T) {
 	n := w.pickNode(t, "target")
 	m := n.m
 	ntx := rapid.IntRange(1, 2).Draw(t, "ntx")
-	if n.publisher {
-		// an arbitrating node re-sorts (and filters) the transactions of a block it is handed; only the
-		// holder of the publisher key - the arbitrating node itself - can produce such blocks, so
-		// multi-transaction crafted blocks go to followers only
-		ntx = 1
-	}
+	// (an arbitrating node sorts and filters the transactions of a block while it checks it; a signed block whose
+	// transactions it would have to drop or reorder must be refused - see submit)
 	txns := w.validTxnsFor(t, m, ntx)
 	if len(txns) == 0 {
 		t.Skip("no valid transaction can be built")
 	}
 	when := w.nextTime(t, m)
 	kind := "header"
-	if !n.publisher && rapid.IntRange(0, 2).Draw(t, "bodymut") == 0 {
+	if rapid.IntRange(0, 2).Draw(t, "bodymut") == 0 {
 		kind = "body"
 	}
 	mut := "none"
